@@ -26,6 +26,8 @@ HB_CLIENTS = [
     ("hb-dd", "dd", False, 2, 400, 10000),
     ("hb-soh", "soh", True, 2, 400, 10000),
     ("hb-dobj", "dobj", True, 2, 400, 10000),
+    # two atomic_guarded wrappers and the operations that involve both (`a = b`): no component model, HB layer only
+    ("hb-ag2", "ag2", False, 6, 500, 12000),
 ]
 
 ACQ = ("acq", "ar", "sc")
@@ -376,6 +378,10 @@ PARTS = {
     "C03": dict(components=["hb-lr"], lean_files=["ConcVerif/Props/C07_lr.lean"],
                 level_text_add="The lr traces are also run through the happens-before race checker (C07_lr_*: the four orders the "
                                "protocol needs, each shown necessary)."),
+    "C15": dict(components=["hb-ag2"], lean_files=["ConcVerif/Props/C07.lean"],
+                level_text_add="Operations that involve TWO atomic_guarded wrappers (assignment from another atomic_guarded) have no "
+                               "component model; their traces are checked by the happens-before layer (each payload under its own "
+                               "mutex, C07_lockset_*, C07_raceFree_sound) and the payload's torn-read detector."),
     "C04": dict(components=["hb-cow"], lean_files=["ConcVerif/Props/C07_cow.lean"],
                 level_text_add="The cow traces are also run through the happens-before race checker (C07_cow_*)."),
 }
